@@ -22,6 +22,8 @@ def run(ctx):
         ctx.tlc_mc("MC_UDPSessions", "MC_UDPSessions_mut%s.cfg" % m, expect_violation=True)
     if T:
         ctx.tlc_mc("MC_UDPSessions", "MC_UDPSessions_live.cfg", timeout=1500)
+        ctx.tlc_mc("MC_UDPSessions", "MC_UDPSessions_split.cfg", timeout=1500)   # ExitFunc's event and map delete as separate steps
+        ctx.tlc_mc("MC_UDPSessions", "MC_UDPSessions_rep2.cfg", timeout=1500)    # two remote replies
     scns = ctx.tlc_gen("MC_UDPSessions", "Gen_UDPSessions.cfg", num=400 if T else 60, depth=150, timeout=600)
     ctx.write_scenarios("udpsess", scns)
     ctx.go_test("core", "./server/", "TestVerif_C07$", ["harness/core/server/c07_test.go"], timeout=240)
